@@ -1,48 +1,95 @@
 """C07 -- no heap allocation in steady state (spec/Heap.tla).
 
-Every trace specification carries the heap conjunct of Heap.tla; this check runs the components of
-all families on their seeded random stimuli (plus the bus lock-step model MC_Heap) and reports the
-events whose ONLY failure is that conjunct (TLC prints them as <<"HEAP", line>>).  Functional
-rejections belong to the component's own property and are not reported here."""
+Every trace specification carries the heap conjunct described in Heap.tla; this check runs the
+pipelines of ALL component families (their TLC-enumerated and seeded random stimuli, executed on the
+real code) plus the bus lock-step model MC_Heap, and reports the events whose ONLY failure is that
+conjunct (TLC prints them as <<"HEAP", line>>).  Functional rejections belong to the component's own
+property and are not reported here.  The families run concurrently."""
+import concurrent.futures as cf
 from lib import kit
 from props import ring, stream
 
-# (label, callable(ctx) -> (functional rejections, heap rejections))
 SOURCES = [
-    ("ring", lambda ctx: ring.pipeline(ctx, parts=("random",))),
-    ("fork", lambda ctx: stream.pipeline(ctx, "fork", parts=("random",))),
-    ("buffered", lambda ctx: stream.pipeline(ctx, "buffered", parts=("random",))),
+    ("ring", lambda c: ring.pipeline(c)),
+    ("fork", lambda c: stream.pipeline(c, "fork")),
+    ("buffered", lambda c: stream.pipeline(c, "buffered")),
     # bus: the lock-step clause -- MC_Heap explores it on the model and emits the schedules
-    ("bus-lockstep", lambda ctx: stream.pipeline(ctx, "bus", mc=dict(mc="MC_Heap", actions=["Pull"]))),
+    ("bus-lockstep", lambda c: stream.pipeline(c, "bus", mc=dict(mc="MC_Heap", actions=["Pull"]))),
 ]
+REPLAY = {
+    "bounded": lambda c, r: ring.pipeline(c, replay=r),
+    "fixed": lambda c, r: ring.pipeline(c, replay=r),
+    "fork": lambda c, r: stream.pipeline(c, "fork", replay=r),
+    "buffered": lambda c, r: stream.pipeline(c, "buffered", replay=r),
+    "bus": lambda c, r: stream.pipeline(c, "bus", replay=r),
+}
+
+
+def _optional(modname, adder):
+    """Families built by other modules register themselves here when present."""
+    try:
+        mod = __import__("props." + modname, fromlist=["x"])
+    except Exception as x:  # a family that cannot be imported is a tool error at run time, not silence
+        SOURCES.append((modname, lambda c, x=x: (_ for _ in ()).throw(kit.ToolError("props.%s: %s" % (modname, x)))))
+        return
+    adder(mod)
+
+
+def _graph(m):
+    SOURCES.append(("graph", lambda c: m.pipeline_graph(c)))
+    SOURCES.append(("nodes", lambda c: m.pipeline_nodes(c)))
+    REPLAY["graph"] = lambda c, r: m.pipeline_graph(c, replay=r)
+    REPLAY["node"] = lambda c, r: m.pipeline_nodes(c, replay=r)
+
+
+def _dsp2(m):
+    for pid, label in (("C17", "osc"), ("C18", "sinc"), ("C20", "window")):
+        SOURCES.append((label, lambda c, pid=pid: m.pipeline(c, pid)))
+    for comp, pid in (("osc", "C17"), ("noise", "C17"), ("sinc", "C18"), ("sinc_conv", "C18"), ("sinc_lin", "C18"),
+                      ("window", "C20"), ("windower", "C20")):
+        REPLAY[comp] = lambda c, r, pid=pid: m.pipeline(c, pid, replay=r)
+
+
+def _conv(m):
+    SOURCES.append(("converter", lambda c: m.pipeline(c)))
+    REPLAY["converter"] = lambda c, r: m.pipeline(c, replay=r)
+
+
+_optional("graph", _graph)
+_optional("conv", _conv)
+_optional("dsp2", _dsp2)
 
 
 def c07(ctx, replay):
     ctx.assumptions += [
         "heap activity is observed by a counting #[global_allocator] strictly inside each call (driver-side buffers are allocated before the window)",
-        "absence of allocation is established on the executions run (all operation kinds of every component, random values/lengths/orders), not proved value-independent",
-        "exempt by the property: constructors, Fork::by_rc, boxed-slice conversions (own rule), every Bus action (but lock-step backlog <= 1 and footprint stable after round 1)",
+        "absence of allocation is established on the executions run (all operation kinds of every component, TLC-enumerated and random values/lengths/orders), not proved value-independent",
+        "exempt by the property: constructors, Fork::by_rc, boxed-slice conversions (own rule), every Bus action (but lock-step backlog <= 1 and footprint stable after round 1); "
+        "Processor::process is judged from the second call on the same (graph, output)",
     ]
     if replay:
-        # a replay file names its component in the reset line
         comp = kit.load_stimuli(replay)[0][0].get("comp")
-        for label, fn in REPLAY.get(comp, []):
-            _, heap = fn(ctx, replay)
-            ctx.add_rejections(heap)
-        return
-    ignored = 0
-    for label, fn in SOURCES:
-        rej, heap = fn(ctx)
-        ignored += len(rej)
+        if comp not in REPLAY:
+            raise kit.ToolError("no component '%s' for replay" % comp)
+        _, heap = REPLAY[comp](ctx, replay)
         ctx.add_rejections(heap)
+        return
+    ignored = {}
+
+    def one(src):
+        label, fn = src
+        c = ctx.child(label)
+        rej, heap = fn(c)
+        return label, c, rej, heap
+    with cf.ThreadPoolExecutor(max_workers=4) as ex:
+        results = list(ex.map(one, SOURCES))
+    for label, c, rej, heap in results:
+        ctx.merge(c)
+        if rej:
+            ignored[label] = len(rej)
+        ctx.add_rejections(heap)
+    ctx.exhaustive = True
     ctx.extra["functional_rejections_left_to_other_properties"] = ignored
 
 
-REPLAY = {
-    "bounded": [("ring", lambda ctx, r: ring.pipeline(ctx, replay=r))],
-    "fixed": [("ring", lambda ctx, r: ring.pipeline(ctx, replay=r))],
-    "fork": [("fork", lambda ctx, r: stream.pipeline(ctx, "fork", replay=r))],
-    "buffered": [("buffered", lambda ctx, r: stream.pipeline(ctx, "buffered", replay=r))],
-    "bus": [("bus", lambda ctx, r: stream.pipeline(ctx, "bus", replay=r))],
-}
 CHECKS = {"C07": c07}
